@@ -1,5 +1,5 @@
 (** CoarseChain: C08 for coarse fragment CHAINS, unbounded.  A chain of coarse nodes, each with a name and a
-    list of bonding descriptors (kinds $ > < !, alphanumeric labels, orders 0..3), joined by bonds of order 0..4:
+    list of bonding descriptors (kinds $ > < !, alphanumeric labels, orders 0..4), joined by bonds of order 0..4:
     (i)   [write_chain_frag]: write_graph(smiles_format=False) writes  [#n0]D0 s1 [#n1]D1 ...  (node, its
           descriptors through the generated format_bonding, the bond symbol before the next node);
     (ii)  [strip_chain]: the strip model (through the strip component's strip_correct) splits that text into the
@@ -42,7 +42,7 @@ Proof.
   replace (map d_stored D) with (map (fun klo => mk_descr (fst klo) (snd klo)) (map (fun x => (d_kl x, snd x)) D))
     by (rewrite map_map; reflexivity).
   apply format_bonding_spec. apply Forall_forall. intros klo Hin. apply in_map_iff in Hin as [x [<- Hx]].
-  rewrite forallb_forall in HL. specialize (HL x Hx). destruct (order_cases _ HL) as [E|[E|[E|E]]]; cbn [snd]; lia.
+  rewrite forallb_forall in HL. specialize (HL x Hx). destruct (order_cases _ HL) as [E|[E|[E|[E|E]]]]; cbn [snd]; lia.
 Qed.
 Lemma aget_fragname x : aget (S "fragname") (fattrs x) = Some (VStr F).
 Proof. reflexivity. Qed.
